@@ -520,8 +520,12 @@ def r6_counter_walk(ctx):
         if len(defs) == 2 and all(d[0] == "stmt" for d in defs):
             trees = [ex.rvalue(d[3]) for d in defs]
             for init, upd in (trees, trees[::-1]):
-                if upd[0] == "bin" and upd[1] in ("Sub", "SubWithOverflow") and upd[2] == ("local", l) and upd[3][0] == "c":
-                    iv = (l, init, upd[3][1])
+                if upd[0] == "bin" and upd[1] in ("Sub", "SubWithOverflow") and upd[2] == ("local", l):
+                    # the step as a literal, a named constant or a cast of one
+                    try:
+                        iv = (l, init, upd[3][1] if upd[3][0] == "c" else fold(upd[3]))
+                    except Unfoldable:
+                        pass
     if iv is None:
         ctx.lost(rid, "count_repetitions: a loop index that decreases by a constant")
         return
